@@ -17,13 +17,13 @@ def selftest(tier):
 
 
 def obligations(tier, seed):
-    t = 450 if tier == 'quick' else 1200
+    t = 240 if tier == 'quick' else 1200
     n = len(skeletons.HOIST_TEMPLATES)
     combos = [(True, False), (True, True), (False, False), (False, True)]
     shards = []
     for k in range(n):
         name_k = skeletons.HOIST_TEMPLATES[k][0]
-        quick_lengths = (3,) if name_k.startswith('folded_') else ((1, 3) if name_k in ('import_and_literal', 'decorator_only') else ((1, 3)[(k + seed) % 2],))
+        quick_lengths = (3,) if name_k.startswith('folded_') else (1,) if name_k in ('one_true_float', 'none_true_bytes') else ((1, 3) if name_k in ('import_and_literal', 'decorator_only') else ((1, 3)[(k + seed) % 2],))
         for L in (quick_lengths if tier == 'quick' else (1, 3)):
             cs = [combos[(k // 2 + seed + L) % 4]] if tier == 'quick' else combos[:2]
             for (rl, rg) in cs:
